@@ -138,9 +138,10 @@ def main(argv):
             print("%-5s ERROR %s" % (r["mutation"], r["error"]))
             ok = False
             continue
-        killed = sorted(k for k, v in r["lemmas"].items() if v == "sat")
-        other = sorted("%s=%s" % (k, v) for k, v in r["lemmas"].items() if v != "sat")
-        missing = [e for e in r["expect"] if e not in killed]
+        lem = {k: v for k, v in r["lemmas"].items() if not k.endswith(".bounds") or v == "sat"}
+        killed = sorted(k for k, v in lem.items() if v == "sat")
+        other = sorted("%s=%s" % (k, v) for k, v in lem.items() if v != "sat")
+        missing = [e for e in r["expect"] if not any(k == e or k.startswith(e + "[") for k in killed)]
         print("%-5s %-7s %-34s %s  [%ss]%s" % (r["mutation"], r.get("builds"), ",".join(killed) or "-", " ".join(other), r["wall_s"],
                                              ("  MISSING: %s" % missing) if missing else ""))
         for v in r["violations"]:
